@@ -102,9 +102,14 @@ def run(ctx: Ctx):
                 and isinstance(c.args[0], ast.Constant):
             regmap[u(c.args[1])] = c.args[0].value
     bbuf = {}  # buffer name -> builder local
+    def _slot_root(e):
+        # (a slot handed back through a dtype / device / layout conversion is still that buffer: `offsets.to(offset_type)`)
+        while isinstance(e, ast.Call) and isinstance(e.func, ast.Attribute) and e.func.attr in ("to", "contiguous", "long", "int", "float", "clone", "detach", "type"):
+            e = e.func.value
+        return e
     for loc, nm in zip(bret.value.elts, init_names):
         if nm in regmap:
-            bbuf[regmap[nm]] = u(loc)
+            bbuf[regmap[nm]] = u(_slot_root(loc))
     if set(bbuf) != {"logps", "logbs", "ids", "offsets"}:
         raise AnalysisError(f"C06: builder buffers resolved to {bbuf}")
 
@@ -180,17 +185,27 @@ def run(ctx: Ctx):
            f"offsets has {alloc.get('offsets')} entries but logbs {alloc.get('logbs')}", rel, build.line)
     col.ob("G12", "S3", f"{rel}::{KERNEL}::O=offsets.numel()", ok_name is not None,
            "the kernel's O is not offsets.numel()", rel, kern.line)
-    # shift: three definitions agree
+    # shift: three definitions agree - as a truth table: every conditional expression over (sos, vocabulary size) in the kernel, the
+    # width inference and the `shift` property evaluates to 0 exactly when 0 <= sos < V (either orientation, De Morgan, ...)
+    from sa.inteval import NotEvaluable as _NEs, int_eval as _ies
     shifts = {}
     for f, tag in ((kern, KERNEL), (infer, "_infer_max_direct_descendants"),
                    (pkg.func(f"{MOD}::{CLS}.shift"), "shift")):
         for n in own_nodes(f.node):
-            if isinstance(n, ast.IfExp) and isinstance(n.test, ast.Compare) and len(n.test.ops) == 2:
-                shifts[tag] = _ren(u(n))
+            if not isinstance(n, ast.IfExp):
+                continue
+            names_ = {_ren(u(x)) for x in ast.walk(n.test) if isinstance(x, (ast.Name, ast.Attribute))}
+            if not {"sos", "V"} <= names_:
+                continue
+            try:
+                tab = tuple(_ies(n, {"sos": s_, "self.sos": s_, "V": 5, "self.vocab_size": 5}) for s_ in (-2, -1, 0, 2, 4, 5, 7))
+            except _NEs:
+                tab = "?"
+            shifts[tag] = tab
     col.floor("shift_definitions", len(shifts), 3)
     col.ob("G12", "S3", f"{rel}::layout::shift-definitions-agree",
-           len(set(shifts.values())) == 1 and set(shifts.values()) == {"0 if 0 <= sos < V else 1"},
-           f"the sos shift is defined as {shifts}", rel, kern.line, sample=shifts)
+           len(set(shifts.values())) == 1 and set(shifts.values()) == {(1, 1, 0, 0, 0, 1, 1)},
+           f"the sos shift for sos in (-2, -1, 0, 2, 4, 5, 7) with a vocabulary of 5 is {shifts}; expected 0 exactly for 0 <= sos < V", rel, kern.line, sample={k: str(v) for k, v in shifts.items()})
     # U in load_state_dict / _infer_max_direct_descendants is the N>1 instance: V + shift + 1
     for f, tag in ((load, "load_state_dict"), (infer, "_infer_max_direct_descendants")):
         cand = None
@@ -770,22 +785,23 @@ def _arpa_base_conversion(ctx: Ctx):
             loop = pm_f.get(loop)
         if loop is None:
             continue
-        inside = {id(x) for st_ in loop.body for x in ast.walk(st_)}
+        inside = {id(x) for st_ in loop.body for x in ast.walk(st_)} | {id(loop)}  # (the loop target is bound per line)
         for c in comps:
             # every definition the stored value derives from (directly or through temporaries such as `value = (value, logb / norm)`),
             # grouped by variable
-            byname = {}
-            for d in rd.derives(c).defs:
-                if d.kind == "assign" and getattr(d, "stmt", None) is not None:
-                    byname.setdefault(d.name, []).append(d)
-            for x in ast.walk(c):
-                if isinstance(x, ast.Name) and isinstance(x.ctx, ast.Load):
-                    for d in rd.defs_of(x):
-                        if d.kind == "assign" and getattr(d, "stmt", None) is not None and d not in byname.setdefault(d.name, []):
-                            byname[d.name].append(d)
-            for nm_, ds in byname.items():
+            # judged per USE: a read (in the stored value or in a definition it derives from) that can see both a definition inside the
+            # loop body and one outside it. (Grouping by variable name would merge unrelated uses of a re-used name such as `match`.)
+            uses = [x for x in ast.walk(c) if isinstance(x, ast.Name) and isinstance(x.ctx, ast.Load)]
+            for nd_ in rd.derives(c).nodes():
+                uses.extend(x for x in ast.walk(nd_) if isinstance(x, ast.Name) and isinstance(x.ctx, ast.Load))
+            seen_ = set()
+            for x in uses:
+                if id(x) in seen_ or id(x) not in inside:
+                    continue  # (a read outside the line loop - the block header - naturally sees the previous block's last line)
+                seen_.add(id(x))
+                ds = [d for d in rd.defs_of(x) if d.kind == "assign" and getattr(d, "stmt", None) is not None]
                 if any(id(d.stmt) in inside for d in ds) and any(id(d.stmt) not in inside for d in ds):
-                    stale.append((n, nm_))
+                    stale.append((n, x.id))
     col.ob("G16", "S8", f"{rel}::parse_arpa_lm::entry-values-come-from-the-entry's-own-line", not stale,
            (f"`{stale[0][1]}` is stored by `{u(stale[0][0])[:70]}` but can still hold a value assigned before the line loop / for an "
             f"earlier line: an n-gram that omits its back-off weight (implicit 0) is stored with the previous entry's weight") if stale else "",
